@@ -30,7 +30,9 @@ EXPLANATION = (
     "convert_format on every file, so for a net of the current format it must be the identity: every store into the "
     "net that precedes its `format_version >= current` return (with the helper steps inlined) is guarded by the "
     "*absence* of the key it sets (`k not in net`, `not hasattr(net, k)`, `net.get(k) is None`), never by a test on the "
-    "value, and add_default_components is called without overwrite. (R15.5) a to_dict that copies private attributes "
+    "value, and add_default_components is called without overwrite. (R15.6) custom to_dict/from_dict pairs agree unconditionally: to_dict never removes an entry from the "
+    "dictionary it returns and from_dict never invents a value (setdefault / constant fallback) the writer did not store. "
+    "(R15.5) a to_dict that copies private attributes "
     "out of a library object (scipy's interp1d.__dict__) converts them to JSON-native values explicitly (.item(), "
     ".tolist(), float() ...) because private state has no type contract. Not decided: equality of a loaded "
     "net with the original (runtime; pandapower's encoder/decoder are trusted).")
@@ -403,4 +405,40 @@ def r15_5(run):
     run.floor(2)
 
 
-RULES = [("R15.1", r15_1), ("R15.2", r15_2), ("R15.3", r15_3), ("R15.4", r15_4), ("R15.5", r15_5)]
+def r15_6(run):
+    """writer/reader agreement of custom to_dict/from_dict pairs is unconditional: to_dict never removes an entry it exports
+    (no `del d[k]` / `d.pop(k)` on the returned dict, conditional or not) and from_dict never invents a value the writer did not
+    store (no `setdefault` / constant default for a reconstruction argument) -- otherwise some object states are written
+    without a field and read back with a different one"""
+    from ..arrnf import ANF, roots, show as tshow, walk
+    ix = run.index
+    n = 0
+    for ci in _serialisable_classes(ix):
+        td, fd = _own_method(ix, ci, "to_dict"), _own_method(ix, ci, "from_dict")
+        if td is None or fd is None:
+            continue
+        n += 1
+        run.analysed(td)
+        run.analysed(fd)
+        r = ANF(ix, td).run()
+        ret_roots = set()
+        for e in r.returns():
+            ret_roots |= roots(e.value)
+        removed = [e for e in r.events if e.kind == "delete" and roots(e.target[1] if e.target[0] == "idx" else e.target) & ret_roots]
+        removed += [c for c in r.calls() if c.fn[0] == "attr" and c.fn[2] in ("pop", "popitem", "clear") and roots(c.fn[1]) & ret_roots]
+        run.ob("%s|to_dict|exports-unconditionally" % ci.name, not removed,
+               "%s.to_dict never removes an entry from the dictionary it returns" % ci.name,
+               run.where(td, removed[0].node if removed else td.node))
+        r2 = ANF(ix, fd).run()
+        invented = [c for c in r2.calls() if c.fn[0] == "attr" and c.fn[2] == "setdefault"]
+        invented += [c for c in r2.calls() if c.fn[0] == "attr" and c.fn[2] == "get" and len(c.args) == 2 and c.args[1][0] == "c"
+                     and c.args[1][1] is not None]
+        run.ob("%s|from_dict|no-invented-defaults" % ci.name, not invented,
+               "%s.from_dict rebuilds the object only from stored entries (no setdefault / constant fallback)" % ci.name,
+               run.where(fd, invented[0].node if invented else fd.node),
+               detail="; ".join(tshow(c.term)[:100] for c in invented))
+    run.ob("custom-pairs-found", n >= 2, "classes with their own to_dict/from_dict pair: %d" % n, "src/pandapipes")
+    run.floor(4)
+
+
+RULES = [("R15.6", r15_6), ("R15.1", r15_1), ("R15.2", r15_2), ("R15.3", r15_3), ("R15.4", r15_4), ("R15.5", r15_5)]
